@@ -1053,6 +1053,89 @@ fn run_chains(ctx: &Ctx) {
     }
 }
 
+/// recursion that a program reaches only through its history: a macro first defined (and possibly used) with a harmless
+/// body and then defined again so that it uses itself, directly or through another macro; a macro that invokes a
+/// by-name parameter, first used with a leaf and then with itself.  (name, source); every one must be refused with a
+/// diagnostic -- by a child process, because a missing recursion check overflows the stack
+pub fn late_recursion_programs() -> Vec<(String, String)> {
+    let mut v: Vec<(String, String)> = Vec::new();
+    let tail = "mov dl, 33\nmov ah, 2\nint 0x21\nprint reg\n";
+    for (bi, first_body) in ["inc x", "mov x, x", "nop", "inc x inc x", "push x pop x"].iter().enumerate() {
+        for used_between in [false, true] {
+            for (ri, redef) in ["m (x)", "inc x m (x)", "m (x) inc x", "n (x)"].iter().enumerate() {
+                let mut s = String::new();
+                s.push_str(&format!("macro m(x) -> {} <-\n", first_body));
+                if *redef == "n (x)" {
+                    s.push_str("macro n(x) -> m (x) <-\n");
+                }
+                s.push_str("start:\n");
+                if used_between {
+                    s.push_str("m(ax)\n");
+                    if *redef == "n (x)" {
+                        s.push_str("n(bx)\n");
+                    }
+                }
+                s.push_str(&format!("macro m(x) -> {} <-\n", redef));
+                s.push_str("m(ax)\n");
+                s.push_str(tail);
+                v.push((format!("redefined-recursive/{}{}{}", bi, if used_between { "u" } else { "-" }, ri), s));
+            }
+        }
+    }
+    // by-name parameter: a successful use first, then the macro handed to itself
+    v.push(("by-name/apply-apply".into(), format!("macro bump(k, r) -> inc r <-\nmacro apply(k, r) -> k (k, r) <-\nstart:\napply(bump, ax)\napply(apply, ax)\n{}", tail)));
+    v.push(("by-name/apply-apply-first".into(), format!("macro bump(k, r) -> inc r <-\nmacro apply(k, r) -> k (k, r) <-\nstart:\napply(apply, ax)\n{}", tail)));
+    v.push(("by-name/two-step".into(), format!("macro leaf(k, r) -> inc r <-\nmacro a(k, r) -> k (k, r) <-\nmacro b(k, r) -> a (k, r) <-\nstart:\nb(leaf, cx)\na(leaf, cx)\nb(b, cx)\n{}", tail)));
+    v
+}
+
+/// run the late-recursion programs through the given build(s) of the CLI; `owner` = key prefix (c13 / c15)
+pub fn late_recursion_family(ctx: &Ctx, owner: &str) {
+    use rayon::prelude::*;
+    let have_debug = std::path::Path::new(CLI_DEBUG_BIN).exists();
+    let progs = late_recursion_programs();
+    let jobs: Vec<(usize, bool)> = progs.iter().enumerate().flat_map(|(i, _)| if have_debug && i % 4 == 0 { vec![(i, false), (i, true)] } else { vec![(i, false)] }).collect();
+    let outs: Vec<CliOut> = jobs
+        .par_iter()
+        .map(|(i, debug)| {
+            let src = &progs[*i].1;
+            if *debug {
+                run_bin_limited(CLI_DEBUG_BIN, src.as_bytes(), Stdin::Closed, false, 4 << 20, 240_000, Limits { as_bytes: 3 << 30, stack_bytes: Some(8 << 20), cpu_secs: None })
+            } else {
+                run_cli_limited(src.as_bytes(), Stdin::Closed, false, 4 << 20, 120_000, Limits { as_bytes: 3 << 30, stack_bytes: Some(8 << 20), cpu_secs: None })
+            }
+        })
+        .collect();
+    for ((i, debug), out) in jobs.into_iter().zip(outs) {
+        let (name, src) = &progs[i];
+        ctx.add_evals(1);
+        let replay = json!({"kind":"cli","source":src,"stdin":"","interpreted":false,"unoptimised_build":debug});
+        let build = if debug { " (unoptimised build, 8 MiB stack)" } else { "" };
+        match &out.status {
+            Status::Timeout | Status::SpawnError(_) => {
+                ctx.inconclusive(&format!("late recursion {}: {:?}", name, out.status));
+                continue;
+            }
+            Status::Signal(sig) => {
+                ctx.fail(Failure { key: format!("{}|late-recursion|killed-by-signal", owner), what: format!("[{}]{}: the emulator was killed by signal {} (stack overflow) instead of refusing the recursive macro with a diagnostic", name, build, sig), replay });
+                continue;
+            }
+            _ => {}
+        }
+        if !out.clean() {
+            ctx.fail(Failure { key: format!("{}|late-recursion|abnormal-exit", owner), what: format!("[{}]{}: status {:?} {}", name, build, out.status, out.err_str().lines().next().unwrap_or("")), replay });
+            continue;
+        }
+        let s = out.out_str();
+        if s.contains("AX : ") || s.contains('!') || s.trim().is_empty() {
+            ctx.fail(Failure { key: format!("{}|late-recursion|not-rejected", owner), what: format!("[{}]{}: a macro that uses itself was not refused with a diagnostic (output starts {:?})", name, build, s.chars().take(100).collect::<String>()), replay });
+            continue;
+        }
+        ctx.add_nontrivial(1);
+        ctx.class(&format!("{}/late-recursion-refused", owner), 1);
+    }
+}
+
 pub fn run(ctx: &Ctx) {
     ctx.set_rule("proptest-generated macro libraries: 0-8 macros with 0-4 parameters drawn from a pool of names that are prefixes/suffixes/substrings of each other and of body tokens (a, ab, a1, _a, ax1, ad, mo, al1, ...), bodies of complete instructions in the body alphabet with operands abstracted into parameters (byte/word register, 8/16-bit number in any radix, byte/word bracketed memory of all five shapes, data-label name, jump target), uses of earlier macros with literal and passed-through arguments, macro-valued parameters, optional back edges (2-cycles), self recursion, unknown macro names, definitions placed between code items, uses at top level, between labels and inside a procedure, several use-site spellings. Oracle: an independent textual reference expander (whole-identifier simultaneous substitution, recursive, explicit cycle check) produces the hand-expanded program P'; Output.code/.data and the label and procedure maps of P must equal those of P', P is rejected iff P' is rejected or the reference finds a cycle / unknown macro, and the diagnostic must be positioned on the line(s) of the failing outermost use. Deep chains (1..64 quick, ..4096 thorough; acyclic and cyclic) run through the CLI in a child process: result or diagnostic, never a signal. Non-trivial = a parameter name that is a substring of another body token, nesting depth >= 2, a macro-valued parameter, or a cyclic use graph.");
     ctx.assume("arguments are the kinds the statement lists (identifier, register, number, bracketed memory); the number of arguments equals the number of parameters ('_' convention for none); a space separates a macro-valued parameter from its bracket, as syntax.md requires; macros expanding to data directives are not generated");
@@ -1062,6 +1145,8 @@ pub fn run(ctx: &Ctx) {
     run_inproc(ctx, "c13", n, raw_s, eval, |raw| json!({"source": render(&build(raw)).text, "hand_expanded": reference(&build(raw)).text}));
     if cli_available() {
         run_chains(ctx);
+        late_recursion_family(ctx, "c13");
+        ctx.require_class("c13/late-recursion-refused", 40);
     } else {
         ctx.harness_error("CLI binary not built");
     }
